@@ -13,8 +13,20 @@ int main(void)
   econf_requirePermissions(nondet_mode(), nondet_mode());
 #elif FN == 4
   econf_followSymlinks(nondet_bool());
-#else
+#elif FN == 5
   econf_reset_security_settings();
+#else
+  econf_file *kf = NULL;
+  if (nondet_bool()) { kf = malloc(sizeof(econf_file)); __CPROVER_assume(kf != NULL); }
+#if FN == 6
+  char c = econf_comment_tag(kf);
+#elif FN == 7
+  char c = econf_delimiter_tag(kf);
+#elif FN == 8
+  econf_set_comment_tag(kf, nondet_char());
+#else
+  econf_set_delimiter_tag(kf, nondet_char());
+#endif
 #endif
   VACUITY_END();
   return 0;
